@@ -32,6 +32,7 @@ type Gen struct {
 	conModCache map[*Contract]map[string]bool
 	firstPassOnly bool // solveAll pass A: single-solver stage only (see solve.go)
 	ifaceModCache map[string]map[string]bool
+	mayAcq     map[*ssa.Function]map[string]bool // mutex classes each function may acquire (guarded.go)
 	namedTypes []types.Type
 	interference bool
 	axiomLines []string
@@ -163,6 +164,9 @@ type FuncVC struct {
 	edgeHits map[*Clause]int // back-edge clauses: number of edges each was generated for
 	nCanary  int             // returns seen so far (exit canaries are sampled, driver.go)
 	guardN   map[string]int  // guarded accesses seen so far, per field (guarded.go)
+	lockClass map[string]string // lock id -> mutex class (struct type + field), for the no-relock obligations
+	relockN  int
+	caHits   map[*CallAssert]int // call-site clauses: number of call sites each was generated for
 	acquired map[string]int  // lock id -> acquisitions seen so far (reacquire rules, locks.go)
 	frameAll bool
 	allocBoundTerm string
